@@ -57,6 +57,25 @@ def readFrame (limit : Nat) (cs : List Bytes) : ReadResult :=
 def writeFrame (limit : Nat) (p : Bytes) : Option Bytes :=
   if p.length > limit then none else some (natBE 4 p.length ++ p)
 
+/-- The loop `for total < len(bytes) { n, err = conn.Write(bytes[total:]) … }` of `writeTo`
+over a connection whose i-th `Write` accepts `ks[i]` bytes (at least 1, at most what is
+offered; everything once `ks` is exhausted). Returns the pieces handed to the transport. -/
+def writeLoop : Nat → Bytes → List Nat → List Bytes
+  | 0, _, _ => []
+  | fuel + 1, bs, ks =>
+    if bs.length = 0 then []
+    else
+      let k := match ks with
+        | [] => bs.length
+        | k :: _ => if k = 0 then 1 else min k bs.length
+      bs.take k :: writeLoop fuel (bs.drop k) ks.tail
+
+/-- `writeTo` on such a connection: the pieces put on the wire -/
+def writeFrameTo (limit : Nat) (p : Bytes) (ks : List Nat) : Option (List Bytes) :=
+  match writeFrame limit p with
+  | none => none
+  | some s => some (writeLoop s.length s ks)
+
 /-- read `k` frames one after the other (the `readPipe` loop); stops at the first error -/
 def readFrames (limit : Nat) : Nat → List Bytes → List (Except Err Bytes) × List Bytes
   | 0, cs => ([], cs)
@@ -99,13 +118,17 @@ def showRead (long : Bool) (r : ReadResult) : String :=
     if long then s!"ok len={b.length} adler={adler32 b} rest={toHex rest} req={r.req}"
     else s!"ok {toHex b} rest={toHex rest} req={r.req}"
 
-def stepWr (limit : Nat) (n a b : String) : String :=
-  match n.toNat?, a.toNat?, b.toNat? with
-  | some n, some a, some b =>
-    match writeFrame limit (synPayload n a b) with
+def stepWr (limit : Nat) (n a b sizes : String) : String :=
+  match n.toNat?, a.toNat?, b.toNat?, csvNat sizes with
+  | some n, some a, some b, some ks =>
+    -- the harness cycles its accept sizes: unroll them far enough
+    let ks' := if ks.isEmpty then [] else (List.replicate (n / ks.length + 5) ks).flatten
+    match writeFrameTo limit (synPayload n a b) ks' with
     | none => "err oversize"
-    | some s => s!"ok len={s.length} adler={adler32 s} hdr={toHex (s.take 4)}"
-  | _, _, _ => "bad-op"
+    | some pieces =>
+      let s := pieces.flatten
+      s!"ok len={s.length} adler={adler32 s} hdr={toHex (s.take 4)} calls={pieces.length}"
+  | _, _, _, _ => "bad-op"
 
 def step (limit : Nat) (line : String) : String :=
   let wr := stepWr limit
@@ -129,8 +152,8 @@ def step (limit : Nat) (line : String) : String :=
       let bs := natBE 4 hdr ++ synPayload n a b ++ ex
       showRead true (readFrame limit (chunkBy (2 * bs.length + 2) sz sz bs))
     | _, _, _, _, _, _ => "bad-op"
-  | ["wr", n, a, b] => wr n a b
-  | ["wr", n, a, b, _] => wr n a b   -- the partial-`Write` pattern does not change the emitted stream
+  | ["wr", n, a, b] => wr n a b "-"
+  | ["wr", n, a, b, ks] => wr n a b ks
   | _ => "bad-op"
 
 end Dos.Framing
